@@ -351,7 +351,7 @@ def _line_start_or(s, pos):
     return p if not s[p:pos].strip() else pos
 
 
-def expand_macro_call(rel, name, nth, within=None):
+def expand_macro_call(rel, name, nth, within=None, arg0=None):
     """R22: the nth invocation `name!( .. )` of a local `macro_rules! name` in `rel` is expanded textually (first arm whose
     pattern matches, as rustc does),
     the way rustc does for this shape: fragment variables `$x` (ident / expr / literal / ty) are substituted by the
@@ -399,11 +399,17 @@ def expand_macro_call(rel, name, nth, within=None):
     for i in range(lo, hi):
         if toks[i].kind == "id" and texts[i] == name and texts[i + 1] == "!" and texts[i + 2] == "(" and texts[i - 1] != "macro_rules":
             count += 1
-            if count == nth:
+            if arg0 is not None:
+                # select the invocation by its first argument (robust against reordering the invocations)
+                if texts[i + 3] == arg0 and texts[i + 4] == ",":
+                    if inv is not None:
+                        raise WeaveError(f"{rel}: more than one invocation {name}!({arg0}, ..)")
+                    inv = i
+            elif count == nth:
                 inv = i
                 break
     if inv is None:
-        raise WeaveError(f"{rel}: invocation {nth} of {name}! not found")
+        raise WeaveError(f"{rel}: invocation {arg0 if arg0 is not None else nth} of {name}! not found")
     ao, ac = inv + 2, match_close(toks, inv + 2)
 
     def try_arm(po, pc):
@@ -481,12 +487,12 @@ def weave_item(hdr, subs, stats):
     what = f"{rel}::{name}"
     log = []
     if kind == "macrocall":
-        text, line = expand_macro_call(rel, name, hdr.get("nth", 1), hdr.get("in"))
+        text, line = expand_macro_call(rel, name, hdr.get("nth", 1), hdr.get("in"), hdr.get("arg0"))
         ot = OText(text, [line] * len(text))
         orig_text = ot.s
         first_line = last_line = line
         log.append({"rule": "R22 textual expansion of one invocation of a local single-arm macro_rules! (fragment substitution, paste identifier gluing)",
-                    "before": f"{name}!(..) invocation {hdr.get('nth', 1)} at line {line}", "after": "the function it generates", "count": 1})
+                    "before": f"{name}!({hdr.get('arg0') or ''}..) invocation at line {line}", "after": "the function it generates", "count": 1})
         kind = "fn"
         mm_ = re.search(r"\bfn\s+(\w+)", text)
         if not mm_:
@@ -956,7 +962,7 @@ def _count_clauses(txt):
 # template parsing
 # --------------------------------------------------------------------------
 _ITEM_RE = re.compile(
-    r"^//@@\s*item\s+(\w+)\s+(`[^`]+`|\S+)\s+from\s+(\S+)(?:\s+in\s+`([^`]+)`)?(?:\s+nth\s+(\d+))?\s*$")
+    r"^//@@\s*item\s+(\w+)\s+(`[^`]+`|\S+)\s+from\s+(\S+)(?:\s+in\s+`([^`]+)`)?(?:\s+nth\s+(\d+))?(?:\s+arg0\s+(\S+))?\s*$")
 
 
 def parse_template(path, seen=None):
@@ -996,6 +1002,8 @@ def parse_template(path, seen=None):
                 hdr["in"] = m.group(4)
             if m.group(5):
                 hdr["nth"] = int(m.group(5))
+            if m.group(6):
+                hdr["arg0"] = m.group(6)
             subs = []
             i += 1
             cur = None
